@@ -1968,8 +1968,12 @@ GRend(int32 grid)
     if (NULL == (gr_ptr = (gr_info_t *)HAatom_object(grid)))
         HGOTO_ERROR(DFE_GRNOTFOUND, FAIL);
 
-    if (--gr_ptr->access)
+    if (--gr_ptr->access) {
+        /* other GRstart's on this file are outstanding: only this ID is released */
+        if (NULL == HAremove_atom(grid))
+            HGOTO_ERROR(DFE_INTERNAL, FAIL);
         HGOTO_DONE(SUCCEED);
+    }
 
     hdf_file_id = gr_ptr->hdf_file_id;
     file_rec    = HAatom_object(hdf_file_id);
